@@ -232,6 +232,16 @@ class Effects:
 
         def add(node, target_expr, how):
             rn, chain, base = _chain(target_expr)
+            if rn is None and isinstance(base, (ast.IfExp, ast.BoolOp)):
+                # `(a if c else b).x = v` / `(a or b).x = v` (the shape an inlined selector helper has): the store can go
+                # to either object
+                alts = [base.body, base.orelse] if isinstance(base, ast.IfExp) else list(base.values)
+                for alt in alts:
+                    rebuilt = alt
+                    for link in chain:
+                        rebuilt = ast.Subscript(value=rebuilt, slice=ast.Constant(value=0), ctx=ast.Load()) if link == "[]" else ast.Attribute(value=rebuilt, attr=link, ctx=ast.Load())
+                    add(node, rebuilt, how)
+                return
             if rn is None:
                 if isinstance(base, ast.Call):
                     cv = self.contextvar_of(fn, base)
